@@ -49,6 +49,13 @@ pub fn start_election(dbs: &Arc<Databases>) {
             }
 
             if opp.is_none() {
+                // The candidate message is not pending, either it was never sent (this node
+                // yielded to an older candidate in the meantime and no longer replicates) or
+                // everybody already acknowledged it: only claim if still eligible
+                if !dbs.is_eligible() {
+                    log::info!("No longer eligible to be primary, will stop election");
+                    return;
+                }
                 log::debug!("No opp registered, will set as primary");
                 #[cfg(feature = "verif")]
                 crate::verif::point("election_win:not_registered");
